@@ -58,6 +58,9 @@ func genCase(rng *rand.Rand, cfg Cfg, name string, dist func(string)) *Case {
 		kind := kinds[rng.IntN(len(kinds))]
 		var cv conv
 		shape := rng.IntN(10)
+		if i > 0 && rng.IntN(3) == 0 {
+			shape = 9
+		}
 		switch {
 		case shape < 5:
 			cv = g.playConv(kind, sess)
@@ -71,11 +74,22 @@ func genCase(rng *rand.Rand, cfg Cfg, name string, dist func(string)) *Case {
 			dist("conv=record-" + kind)
 			sessN++
 		default:
-			// a connection that works on the session of an earlier connection
-			prev := "{{S0}}"
-			cv.reqs = []convStep{
-				{req: &RawReq{Method: "OPTIONS", URL: baseURL(cfg, streamPath), Headers: hdr(1, [2]string{"Session", prev})}, label: "attach"},
-				{req: &RawReq{Method: []string{"PLAY", "PAUSE", "GET_PARAMETER", "TEARDOWN", "RECORD"}[rng.IntN(5)], URL: baseURL(cfg, streamPath), Headers: hdr(2, [2]string{"Session", prev})}, label: "attach"},
+			// a connection that works on the session of another connection of the same peer
+			prev := fmt.Sprintf("{{S%d}}", rng.IntN(max(1, sessN)))
+			u := baseURL(cfg, []string{streamPath, "/pub0", "/pub1"}[rng.IntN(3)])
+			n := 1 + rng.IntN(4)
+			for k := 0; k < n; k++ {
+				m := []string{"OPTIONS", "OPTIONS", "PLAY", "PAUSE", "GET_PARAMETER", "TEARDOWN", "RECORD", "SETUP"}[rng.IntN(8)]
+				h := hdr(k + 1)
+				if rng.IntN(4) != 0 {
+					h = append(h, [2]string{"Session", prev})
+				}
+				if m == "SETUP" {
+					h = append(h, [2]string{"Transport", g.transportValue("tcp", rng.IntN(2) == 0, 1)})
+					cv.reqs = append(cv.reqs, convStep{req: &RawReq{Method: m, URL: u + "/trackID=1", Headers: h}, label: "attach"})
+				} else {
+					cv.reqs = append(cv.reqs, convStep{req: &RawReq{Method: m, URL: u, Headers: h}, label: "attach"})
+				}
 			}
 			dist("conv=attach")
 		}
@@ -133,6 +147,9 @@ func genCase(rng *rand.Rand, cfg Cfg, name string, dist func(string)) *Case {
 		}
 		ln.steps = cv.reqs
 		ln.end = []string{"eof", "eof", "eof", "idle", "none"}[rng.IntN(5)]
+		if shape >= 9 && rng.IntN(2) == 0 {
+			ln.end = "idle"
+		}
 		// truncation of the conversation's byte stream
 		lanes = append(lanes, ln)
 	}
@@ -323,6 +340,13 @@ func corpusCases() []*Case {
 			snd((&RawReq{Method: "RECORD", URL: u, Headers: hdr(3, [2]string{"Session", "{{S0}}"})}).Bytes()),
 			{Kind: "send", Conn: 1, Data: (&RawReq{Method: "OPTIONS", URL: u, Headers: hdr(1, [2]string{"Session", "{{S0}}"})}).Bytes()},
 			snd((&RawReq{Method: "PAUSE", URL: u, Headers: hdr(4, [2]string{"Session", "{{S0}}"})}).Bytes()),
+			{Kind: "eof", Conn: 0}, {Kind: "idle", Conn: 1}}},
+		{Name: "corpus-attach-tcp-record", Cfg: cfg, Ops: []Op{acc, {Kind: "accept", Conn: 1},
+			snd((&RawReq{Method: "ANNOUNCE", URL: u, Headers: hdr(1, [2]string{"Content-Type", "application/sdp"}), Body: validSDP(1)}).Bytes()),
+			snd((&RawReq{Method: "SETUP", URL: u + "/trackID=0", Headers: hdr(2, [2]string{"Transport", "RTP/AVP/TCP;unicast;interleaved=0-1;mode=record"})}).Bytes()),
+			{Kind: "send", Conn: 1, Data: (&RawReq{Method: "OPTIONS", URL: u, Headers: hdr(1, [2]string{"Session", "{{S0}}"})}).Bytes()},
+			snd((&RawReq{Method: "RECORD", URL: u, Headers: hdr(3, [2]string{"Session", "{{S0}}"})}).Bytes()),
+			{Kind: "send", Conn: 1, Data: (&RawReq{Method: "OPTIONS", URL: u, Headers: hdr(2)}).Bytes()},
 			{Kind: "eof", Conn: 0}, {Kind: "idle", Conn: 1}}},
 		{Name: "corpus-attach-then-record", Cfg: cfg, Ops: []Op{acc, {Kind: "accept", Conn: 1},
 			snd((&RawReq{Method: "ANNOUNCE", URL: u, Headers: hdr(1, [2]string{"Content-Type", "application/sdp"}), Body: validSDP(1)}).Bytes()),
